@@ -783,6 +783,8 @@ MCS = {
                      cfg_thorough="mc/MC_Rounding_thorough.cfg", xmx="8g", timeout=2400),
     "rconv": dict(module="mc/MC_RConv.tla", cfg_quick="mc/MC_RConv_quick.cfg",
                   cfg_thorough="mc/MC_RConv_thorough.cfg", xmx="8g", timeout=2400),
+    "decfloat": dict(module="mc/MC_DecFloat.tla", cfg_quick="mc/MC_DecFloat_quick.cfg", cfg_thorough="mc/MC_DecFloat_thorough.cfg",
+                     xmx="8g", timeout=2400),
     "overflow": dict(module="mc/MC_Overflow.tla", cfg_quick="mc/MC_Overflow_quick.cfg",
                      cfg_thorough="mc/MC_Overflow_thorough.cfg", xmx="8g", timeout=2400),
 }
@@ -832,15 +834,19 @@ CHECKS = {
                "different width/signedness) or, for built-in reps, the built-in comparison of the exponent-aligned reps after "
                "the usual arithmetic conversions (the statement's carve-out), under the alignment-fits guard.",
                "wide_integer comparisons are judged with the wide family (C10)"),
-    "C04": chk(["scaled"], [],
-               SCALED_RULE + "conversions scaled<->scaled, <->built-in integers, <->float/double/long double (radix 2 for "
-               "floating point), from_rep/to_rep and wrap/unwrap round trips; non-trivial = resolution changes / significand "
-               "longer than the float's",
-               SCALED_TECH + "; IEEE round-to-nearest-even and exact dyadic truncation defined in CnlTypes",
+    "C04": chk(["scaled"], ["decfloat"],
+               SCALED_RULE + "conversions scaled<->scaled, <->built-in integers, <->float/double/long double (radix 2, 10 and 3; "
+               "exponents at the widths and digit counts of the built-in integers), from_rep/to_rep and wrap/unwrap round trips; "
+               "non-trivial = resolution changes / significand longer than the float's / any non-binary float conversion",
+               SCALED_TECH + "; IEEE round-to-nearest-even and exact dyadic truncation defined in CnlTypes; exact rational rounding / "
+               "truncation for non-binary radices; deviations bound to the as-coded models (Judge.AsCoded scaling rule, "
+               "alg/AsCodedDecFloat); design-level model check MC_DecFloat (the as-coded decimal conversions on a small machine)",
                "exact value when representable, truncation toward zero otherwise, RNE for integer->floating (floats are logged "
-               "exactly as sign/mantissa/exponent), identity for the round trips.",
-               "radix-10 <-> floating point is not judged (double rounding through an inexact power of ten); NaN/inf not "
-               "generated; source values outside the destination range are skipped"),
+               "exactly as sign/mantissa/exponent), identity for the round trips; MC_DecFloat proves for every value of a 6-bit "
+               "(8-bit thorough) representation, 5-bit (7-bit) floats and radices 10 / 3 (/ 7) that the as-coded non-binary "
+               "conversions stay within one unit in the last place / one representation unit of the exact result.",
+               "NaN/inf not generated; source values outside the destination range are skipped; non-binary float conversions whose "
+               "result would be subnormal or near the overflow threshold are skipped"),
     "C08": chk(["rounding"], ["rounding"],
                "events = a / b under a rounding tag via operate<divide_op,Tag> and rounding_integer<Rep,Tag>, operand types "
                "8..64 bit of both signedness (quick: four divisor types per dividend type), dividends directed at ties and "
